@@ -165,6 +165,9 @@ def _source_kind(it):
         return "__slots__"
     if T.is_call_to(it, "builtins.getattr") and len(it[2]) >= 2 and it[2][1] == ("const", "__slots__"):
         return "__slots__"
+    # names gathered from the __slots__ of every class on the MRO (nested comprehensions, de-duplicated with dict.fromkeys)
+    if T.contains(it, lambda x: (x[0] == "sub" and x[2] == ("const", "__slots__")) or (x[0] == "attr" and x[2] == "__slots__")) and not T.contains(it, lambda x: T.is_call_to(x, f"{C.INSP}.get_type_hints", "dataclasses.fields")):
+        return "__slots__"
     if it[0] == "call" and it[1][0] == "attr" and it[1][2] == "items" and T.is_call_to(it[1][1], "builtins.vars"):
         return "vars()"
     if T.is_call_to(it, "builtins.vars"):
@@ -195,6 +198,7 @@ def r18_4(prog, rep):
                     for tm in p.all_terms():
                         comps += [s for s in T.walk(tm) if s[0] == "comp"]
     found = {}
+    judged = {}
     for c in comps:
         if not c[3]:
             continue
@@ -208,12 +212,54 @@ def r18_4(prog, rep):
         for cd in c[4]:
             conds += list(cd[2]) if cd[0] == "boolop" and cd[1] == "and" else [cd]
         ok = want in conds
-        found[kind] = found.get(kind, True) and ok
+        judged.setdefault(kind, []).append((c, ok))
+    for kind, lst in judged.items():
+        # an unfiltered comprehension is fine when it only feeds one that filters (names gathered first, filtered at the end)
+        feeds = lambda c: any(ok2 and c2 is not c and T.contains(c2[3][0][0], lambda x: x == c) for c2, ok2 in lst)  # noqa: E731
+        closure = True
+        changed = True
+        okset = {id(c) for c, ok in lst if ok}
+        while changed:
+            changed = False
+            for c, ok in lst:
+                if id(c) not in okset and any(id(c2) in okset and T.contains(c2[3][0][0], lambda x: x == c) for c2, _ in lst):
+                    okset.add(id(c))
+                    changed = True
+        closure = all(id(c) in okset for c, _ in lst)
+        del feeds
+        found[kind] = closure
     for kind in ("dataclass fields", "type hints", "__slots__", "vars()"):
         if kind not in found:
             rep.undecided("R18.4", f.qualname, f.loc, f"attribute source {kind} not found (structure outside the idiom set)", detail=kind)
         else:
             rep.check(found[kind], "R18.4", f.qualname, f.loc, f"names from {kind} are filtered by `not name.startswith('_')` on the emitted name", f"names from {kind} are emitted without the public-name filter: private attributes leak into (field, value) pairs", detail=kind)
+
+
+def r18_10(prog, rep):
+    """Which names the fields iterator may take for attributes: (a) type hints, but not the *exhaustive* form, whose fallback
+    is the parameter list of the constructor (parameters need not be attributes: Account(owner, opening) stores `balance`);
+    (b) __slots__ as declared by *every* class of the hierarchy (a subclass's __slots__ lists only its own additions), a lone
+    string being one name."""
+    f = prog.function(f"{C.SERDES}._make_fields_iterator")
+    tp = ("param", f.params[0])
+    calls = [x for p in P.paths_of(prog, f) for tm in p.all_terms() for x in T.walk(tm) if T.is_call_to(x, f"{C.INSP}.get_type_hints", f"{C.INSP}.cached_type_hints") and x[2][:1] == (tp,)]
+    if calls:
+        exhaustive = [c for c in calls if (dict(c[3]).get("exhaustive") or (c[2][1] if len(c[2]) > 1 else None)) != ("const", False)]
+        rep.check(not exhaustive, "R18.10", f.qualname, f.loc, "attribute names are taken from the class's own hints (exhaustive=False), never from its constructor's parameters", "the fields iterator asks for the *exhaustive* hints: for a class without annotations these are the parameters of __init__, which are then read as attributes -- iteritems(Account('ann', 5)) raises AttributeError ('opening'), iteritems(argparse.Namespace(a=1)) raises on 'kwargs', and attributes that are no parameter are silently dropped", detail="hints-not-exhaustive")
+    else:
+        rep.held("R18.10", f.qualname, f.loc, "the fields iterator does not use inspection.get_type_hints", detail="hints-not-exhaustive", nontrivial=False)
+    srcs = []
+    for p in P.paths_of(prog, f):
+        for e in p.events:
+            if e[0] == "assign" and e[2][0] == "comp" and e[2][3] and _source_kind(e[2][3][0][0]) == "__slots__":
+                srcs.append(e[2])
+    if not srcs:
+        rep.undecided("R18.10", f.qualname, f.loc, "no __slots__ source found", detail="slots-hierarchy")
+        return
+    over_mro = any(T.contains(c, lambda x: x == ("attr", tp, "__mro__") or (x[0] == "call" and x[1][0] == "attr" and x[1][1] == tp and x[1][2] == "mro")) for c in srcs)
+    one_name = any(T.contains(c, lambda x: T.is_call_to(x, "builtins.isinstance") and T.refname(x[2][1]) == "builtins.str") for c in srcs)
+    rep.check(over_mro, "R18.10", f.qualname, f.loc, "__slots__ are collected from every class of the hierarchy", "__slots__ is read from the class itself only: a subclass's __slots__ lists just its own additions, so the inherited public fields are never yielded -- iteritems(Derived(1, 2, 3)) == [('c', 3)]", detail="slots-hierarchy")
+    rep.check(one_name, "R18.10", f.qualname, f.loc, "a string-valued __slots__ is one name", "a string-valued __slots__ ('value') is iterated character by character: AttributeError on 'v'", detail="slots-string")
 
 
 def r18_7(prog, rep):
@@ -375,6 +421,8 @@ def run(prog: Program, rep: Report, tier: str):
     rep.rule("R18.4", "public-name filter on every attribute source", floor=4)
     rep.rule("R18.5", "itervalues projects the same strategy; strategy order and arms", floor=5)
     rep.rule("R18.6", "no mutation of the argument", floor=5)
+    rep.rule("R18.10", "attribute names come from the class's own hints and from the __slots__ of its whole hierarchy", floor=3)
+    r18_10(prog, rep)
     rep.rule("R18.9", "ClassVar annotations are not fields", floor=1)
     r18_9(prog, rep)
     rep.rule("R18.8", "pairs are recognised by any 2-element collection", floor=1)
